@@ -184,7 +184,7 @@ def tlc(module, cfg, workers=None, timeout=600, simulate=None, depth=None, extra
     m = re.search(r"Invariant (\S+) is violated", out)
     if m:
         r["violated"] = m.group(1)
-    elif "Temporal properties were violated" in out:
+    elif "Temporal properties were violated" in out or re.search(r"Temporal property \S+ was violated", out):
         r["violated"] = "temporal"
     elif re.search(r"Action property (\S+) is violated", out):
         r["violated"] = re.search(r"Action property (\S+) is violated", out).group(1)
